@@ -175,7 +175,7 @@ def record_e2e(sc):
 
 def record(sc):
     try:
-        with time_limit(20):
+        with time_limit(180):
             return record_direct(sc) if sc["kind"] == "direct" else record_e2e(sc)
     except Hang:
         tr = base_trace(sc)
